@@ -112,9 +112,9 @@ class Report:
         for idx, v in enumerate(new):
             # clear stale replay files of this property first time through
             path = os.path.join(ev_dir, 'replay', '%s-%d.json' % (self.pid, idx))
-            with open(path + '.tmp', 'w') as fh:
+            with open(path + '.tmp%d' % os.getpid(), 'w') as fh:
                 json.dump({'property': self.pid, **v}, fh, indent=1)
-            os.replace(path + '.tmp', path)
+            os.replace(path + '.tmp%d' % os.getpid(), path)
             print('  rule %s [%s] instance %s at %s: %s' % (v['rule'], v['form'], v['instance'], v['where'], v['detail']))
             for step in v['path'][:60]:
                 print('      ' + step)
@@ -163,9 +163,9 @@ class Report:
         if broken:
             ev['coverage']['analysis_broken'] = broken
         path = os.path.join(ev_dir, '%s.json' % self.pid)
-        with open(path + '.tmp', 'w') as fh:
+        with open(path + '.tmp%d' % os.getpid(), 'w') as fh:
             json.dump(ev, fh, indent=1)
-        os.replace(path + '.tmp', path)
+        os.replace(path + '.tmp%d' % os.getpid(), path)
         if broken:
             return 2
         return 1 if new else 0
